@@ -27,16 +27,18 @@ def o(x) -> str:
 
 
 def pw_str(p: Optional[int]) -> Optional[str]:
-    return None if p is None else f"pw{p}"
+    """Password vocabulary: None (no password), 0 = the empty string (falsy but not None), k = 'pwk'."""
+    return None if p is None else ("" if p == 0 else f"pw{p}")
 
 
 # ------------------------------------------------------------------------------------------ model side
 def model_lines(case: dict) -> List[str]:
     d = case["durs"]
     lines = ["reset", f"new {len(case['clients'])} {case['max']} {case['fix']} {case['restart']} {d['sUp']} {d['sDown']} "
-             f"{d['bUp']} {d['bDown']} {d['cUp']} {d['cDown']} {o(case['srv_pw'])}"]
+             f"{d['bUp']} {d['bDown']} {d['cUp']} {d['cDown']} {o(case['srv_pw'])} {1 if case.get('bkcfg', True) else 0}"]
     for i, c in enumerate(case["clients"]):
-        lines.append(f"cfg {i} {o(c['pw'])} {1 if c['rs'] else 0} {o(c['rs_pw'])}")
+        lines.append(f"cfg {i} {o(c['pw'])} {1 if c['rs'] else 0} {o(c['rs_pw'])} {1 if c.get('dm') else 0} {o(c.get('dm_pw'))} "
+                     f"{1 if c.get('dm_repeat', True) else 0}")
     for op in case["ops"]:
         lines.append(" ".join(o(x) if x is None else (("1" if x else "0") if isinstance(x, bool) else str(x)) for x in op))
     return lines
@@ -48,6 +50,8 @@ class Rec:
         self.statuses: List[int] = []
         self.ids: List[str] = []
         self.handles: List[Any] = []
+        self.drops: List[tuple] = []     # (source ip, refused by the sender's own link?) of file-transfer frames refused for capacity
+        self.small_drops: int = 0        # any other frame refused for capacity (the saturation abstraction does not cover it)
 
 
 @contextmanager
@@ -55,7 +59,21 @@ def instrumented(rec: Rec):
     """In-process wrappers (class level, restored on exit); nothing in /repo is touched."""
     from primaite.simulator.system.applications.database_client import DatabaseClient
     from primaite.simulator.system.services.database.database_service import DatabaseService
+    from primaite.simulator.network.hardware.base import Link
     o_send, o_gen, o_create = DatabaseService.send, DatabaseService._generate_connection_id, DatabaseClient._create_client_connection
+    o_can = Link.can_transmit_frame
+
+    def can(self, frame):
+        r = o_can(self, frame)
+        if not r and self.is_up:
+            pl = getattr(frame, "payload", None)
+            src = str(frame.ip.src_ip_address) if getattr(frame, "ip", None) is not None else "?"
+            if type(pl).__name__ == "FTPPacket" and getattr(pl.ftp_command, "name", "") == "STOR":
+                near = any(str(getattr(e, "ip_address", "")) == src for e in (self.endpoint_a, self.endpoint_b))
+                rec.drops.append((src, near))
+            else:
+                rec.small_drops += 1
+        return r
 
     def send(self, payload, session_id, **kw):
         rec.statuses.append(payload.get("status_code") if isinstance(payload, dict) else None)
@@ -72,10 +90,12 @@ def instrumented(rec: Rec):
         return r
 
     DatabaseService.send, DatabaseService._generate_connection_id, DatabaseClient._create_client_connection = send, gen, create
+    Link.can_transmit_frame = can
     try:
         yield
     finally:
         DatabaseService.send, DatabaseService._generate_connection_id, DatabaseClient._create_client_connection = o_send, o_gen, o_create
+        Link.can_transmit_frame = o_can
 
 
 class World:
@@ -87,6 +107,7 @@ class World:
         from primaite.simulator.network.hardware.nodes.network.router import ACLAction, Router
         from primaite.simulator.network.hardware.nodes.network.switch import Switch
         from primaite.simulator.system.applications.database_client import DatabaseClient
+        from primaite.simulator.system.applications.red_applications.data_manipulation_bot import DataManipulationBot
         from primaite.simulator.system.applications.red_applications.ransomware_script import RansomwareScript
         from primaite.simulator.system.services.database.database_service import DatabaseService
         from primaite.simulator.system.services.ftp.ftp_server import FTPServer
@@ -119,9 +140,10 @@ class World:
             net.connect(c.network_interface[1], sw.network_interface[i + 1], bandwidth=BIG)
             self.clients.append(c)
         srv = host(Server, "server", "db", SERVER_IP, "10.0.2.1", d["sUp"], d["sDown"])    # the database host,
-        net.connect(srv.network_interface[1], r.network_interface[2], bandwidth=BIG)
+        bw = case.get("bw") or BIG   # narrow links on the database host and the backup host: the file transfers can saturate them
+        net.connect(srv.network_interface[1], r.network_interface[2], bandwidth=bw)
         bk = host(Server, "server", "bk", BACKUP_IP, "10.0.3.1", d["bUp"], d["bDown"])     # the backup host
-        net.connect(bk.network_interface[1], r.network_interface[3], bandwidth=BIG)
+        net.connect(bk.network_interface[1], r.network_interface[3], bandwidth=case.get("bw_bk") or BIG)
         for p in (1, 2, 3):
             r.enable_port(p)
         r.acl.add_rule(action=ACLAction.PERMIT, src_port=PORT_LOOKUP["ARP"], dst_port=PORT_LOOKUP["ARP"], position=22)
@@ -129,7 +151,8 @@ class World:
         r.acl.add_rule(action=ACLAction.PERMIT, position=21)
         srv.software_manager.install(DatabaseService)
         db = srv.software_manager.software["database-service"]
-        db.configure_backup(IPv4Address(BACKUP_IP))
+        if case.get("bkcfg", True):
+            db.configure_backup(IPv4Address(BACKUP_IP))
         db.max_sessions = case["max"]
         db.config.fixing_duration = case["fix"]
         db.restart_duration = case["restart"]
@@ -147,6 +170,12 @@ class World:
                 rs.configure(server_ip_address=IPv4Address(SERVER_IP))
                 rs.server_password = pw_str(cc["rs_pw"])
                 rs.run()
+            if cc.get("dm"):
+                c.software_manager.install(DataManipulationBot)
+                bot = c.software_manager.software["data-manipulation-bot"]
+                bot.configure(server_ip_address=IPv4Address(SERVER_IP), server_password=pw_str(cc.get("dm_pw")), payload="DELETE",
+                              port_scan_p_of_success=1.0, data_manipulation_p_of_success=1.0, repeat=bool(cc.get("dm_repeat", True)))
+                bot.run()
         self.net, self.router, self.srv, self.bk, self.db = net, r, srv, bk, db
         self.ip_owner = {f"10.0.1.{10 + i}": i for i in range(n)}
         net.pre_timestep(0)
@@ -195,27 +224,46 @@ class World:
         def fh(f):
             return "-" if f is None else f.health_status.name
         conns = ",".join(f"{self.idx(cid)}@{self.ip_owner.get(str(v['ip_address']), '?')}" for cid, v in db._connections.items())
-        parts = [f"srv:{srv.operating_state.name},{db.operating_state.name},{db.health_state_actual.name},{fh(db.db_file)},"
-                 f"{fh(srv.file_system.get_file('downloads', 'database.db'))},[{conns}]"]
+        sw = srv.software_manager
+        inst = sw.software.get("database-service") is db
+        ftpc = sw.software.get("ftp-client")
+        port = inst and any(v is db for v in sw.port_protocol_mapping.values())
+        svc = f"{db.operating_state.name},{db.health_state_actual.name}" if inst else "absent,absent"
+        parts = [f"srv:{srv.operating_state.name},{svc},{fh(db.db_file)},"
+                 f"{fh(srv.file_system.get_file('downloads', 'database.db'))},[{conns}],"
+                 f"ftpc={'-' if ftpc is None else ftpc.operating_state.name},port={1 if port else 0}"]
         ftps = bk.software_manager.software["ftp-server"]
         parts.append(f"bk:{bk.operating_state.name},{ftps.operating_state.name},{fh(bk.file_system.get_file(str(db.uuid), 'database.db'))}")
         for i, c in enumerate(self.clients):
             dc = self.dc(i)
+            bot = c.software_manager.software.get("data-manipulation-bot")
+            dm = "" if bot is None else f",dm{int(bot.attack_stage)}"
             if dc is None:
-                parts.append(f"c:{c.operating_state.name},absent")
+                parts.append(f"c:{c.operating_state.name},absent{dm}")
             else:
                 nat = "-"
                 if dc.native_connection is not None:
                     nat = next((str(k) for k, h in enumerate(self.rec.handles) if h is dc.native_connection), "?")
                 ids = ",".join(str(self.idx(k)) for k in dc.client_connections)
-                parts.append(f"c:{c.operating_state.name},{dc.operating_state.name},[{ids}],{nat}")
+                parts.append(f"c:{c.operating_state.name},{dc.operating_state.name},[{ids}],{nat}{dm}")
         parts.append("H:" + "".join("1" if h.is_active else "0" for h in self.rec.handles))
         return " ".join(parts)
 
     # ---- one op
+    def flags(self, k: str) -> list:
+        """Saturation inputs observed while the op ran (see Model/Database.lean `backupDatabase` / `restoreBackup`)."""
+        d = self.rec.drops
+        big = not any(src == SERVER_IP for src, _ in d)
+        down_ok = not any(src == BACKUP_IP and not near for src, near in d)
+        send_ok = not any(src == BACKUP_IP and near for src, near in d)
+        return {"backup": [big], "restore": [down_ok, send_ok], "tick": [big, down_ok, send_ok]}[k]
+
     def do(self, op: list) -> str:
         rec = self.rec
         rec.statuses = []
+        rec.drops = []
+        rec.small_drops = 0
+        inst = self.srv.software_manager.software.get("database-service") is self.db
         res: Optional[bool] = None
         handle = None
         rej = False
@@ -301,9 +349,64 @@ class World:
         elif k == "spw":
             self.db.password = pw_str(op[1])
         elif k == "backup":
-            res = bool(self.db.backup_database())
+            if inst:
+                res = bool(self.db.backup_database())
+            else:
+                rej = True
+            op[1:] = self.flags("backup")
         elif k == "restore":
-            res = bool(self.db.restore_backup())
+            if inst:
+                res = bool(self.db.restore_backup())
+            else:
+                rej = True
+            op[1:] = self.flags("restore")
+        elif k == "fodel":
+            res = bool(self.srv.file_system.delete_folder("database"))
+        elif k == "bkdel":
+            res = bool(self.bk.file_system.delete_file(str(self.db.uuid), "database.db"))
+        elif k == "adm":
+            sm = self.srv.software_manager
+            if op[1] == "ftpc":
+                res, rej = self.req(self.srv.apply_request(["service", "ftp-client", op[2]]))
+            elif op[1] in ("ftpcun", "svcun", "coun"):
+                name = {"ftpcun": "ftp-client", "svcun": "database-service", "coun": "database-client"}[op[1]]
+                if name in sm.software:
+                    sm.uninstall(name)
+                    res = True
+                else:
+                    rej = True
+            elif op[1] == "bkcfg":
+                self.db.backup_server_ip = self.IPv4Address(BACKUP_IP) if op[2] else None
+                res = True
+            elif op[1] == "coin":
+                if "database-client" in sm.software:
+                    rej = True
+                else:
+                    sm.install(self.DatabaseClient)
+                    sm.software["database-client"].configure(server_ip_address=self.IPv4Address(SERVER_IP))
+                    res = True
+            else:
+                raise ValueError(f"unknown op {op}")
+        elif k == "dm":
+            bot = self.clients[op[1]].software_manager.software.get("data-manipulation-bot") if op[1] < len(self.clients) else None
+            if bot is None:
+                rej = True
+            else:
+                bot.payload = SQL[op[2]]
+                # the two Bernoulli trials of the kill chain, made certain / impossible: the real `simulate_trial` still runs
+                bot.port_scan_p_of_success = 1.0 if op[3] else 0.0
+                bot.data_manipulation_p_of_success = 1.0 if op[4] else 0.0
+                if op[5]:
+                    res, rej = self.req(self.clients[op[1]].apply_request(["application", "data-manipulation-bot", "execute"]))
+                else:
+                    res = bool(bot.attack())
+        elif k == "rsx":
+            rs = self.clients[op[1]].software_manager.software.get("ransomware-script") if op[1] < len(self.clients) else None
+            if rs is None:
+                rej = True
+            else:
+                rs.payload = SQL[op[2]]
+                res, rej = self.req(self.clients[op[1]].apply_request(["application", "ransomware-script", "execute"]))
         elif k == "fdel":
             res = bool(self.srv.file_system.delete_file("database", "database.db"))
         elif k in ("fcor", "frep"):
@@ -330,16 +433,20 @@ class World:
             self.t += 1
             self.net.apply_timestep(self.t)
             self.net.pre_timestep(self.t)
+            op[1:] = self.flags("tick")
         else:
             raise ValueError(f"unknown op {op}")
         sts = ",".join(str(s) for s in rec.statuses if s is not None)
         r = "-" if res is None else ("1" if res else "0")
-        return f"res={r} h={o(handle)} st=[{sts}] rej={1 if rej else 0} | {self.digest()}"
+        extra = f" UNMODELLED-DROP:{rec.small_drops}" if rec.small_drops else ""
+        return f"res={r} h={o(handle)} st=[{sts}] rej={1 if rej else 0}{extra} | {self.digest()}"
 
 
 def run_impl(case: dict) -> List[str]:
     """Answers aligned with model_lines(case): 'ok' for reset/new/cfg, then one line per op. An exception out of the
-    implementation is reported as a line `raised <Type>` (and ends the trace)."""
+    implementation is reported as a line `raised <Type>` (and ends the trace).  The saturation inputs of backup /
+    restore / tick operations are OBSERVED (which link refused the file-transfer frame) and written back into the
+    operation, so `model_lines(case)` must be built after this call."""
     rec = Rec()
     out = ["ok", "ok"] + ["ok"] * len(case["clients"])
     with instrumented(rec):
@@ -354,32 +461,39 @@ def run_impl(case: dict) -> List[str]:
 
 
 # ------------------------------------------------------------------------------------------ generation
-PROFILES = ["mixed", "mixed", "capacity", "damage", "faults", "lifecycle", "red"]
+PROFILES = ["mixed", "mixed", "capacity", "damage", "faults", "lifecycle", "red", "saturation", "admin"]
 BASE_W = {"connect": 16, "hq": 18, "rq": 7, "rd": 3, "hd": 6, "nc": 3, "nq": 5, "nd": 2, "ex": 5, "un": 2, "in": 2, "run": 3,
-          "close": 2, "cpw": 4, "rs": 4, "svc": 10, "spw": 2, "backup": 4, "restore": 6, "fdel": 1, "fcor": 2, "frep": 2, "pow": 4,
-          "ftps": 2, "blk": 5, "tick": 12}
+          "close": 2, "cpw": 4, "rs": 3, "rsx": 2, "dm": 4, "svc": 10, "spw": 2, "backup": 4, "restore": 6, "fdel": 1, "fcor": 2,
+          "frep": 2, "fodel": 1, "bkdel": 1, "adm": 2, "pow": 4, "ftps": 2, "blk": 5, "tick": 12}
 PROFILE_W = {
     "mixed": {},
     "capacity": {"connect": 40, "hd": 14, "nd": 4, "svc": 6, "restore": 8, "nc": 6},
     "damage": {"hq": 30, "backup": 8, "restore": 12, "fdel": 3, "fcor": 4, "frep": 4, "tick": 14, "svc": 12, "rs": 8},
     "faults": {"pow": 12, "blk": 14, "ftps": 5, "tick": 20, "un": 4, "in": 4, "close": 4, "run": 5},
     "lifecycle": {"svc": 30, "tick": 20, "cpw": 8, "spw": 5},
-    "red": {"rs": 20, "rq": 14, "rd": 8, "restore": 10, "tick": 14},
+    "red": {"rs": 12, "rsx": 8, "dm": 24, "rq": 10, "rd": 6, "restore": 10, "tick": 14, "cpw": 6},
+    "saturation": {"backup": 22, "restore": 30, "bkdel": 8, "tick": 8, "hq": 12, "svc": 8, "blk": 3, "pow": 2},
+    "admin": {"adm": 22, "backup": 10, "restore": 14, "fodel": 4, "bkdel": 5, "fdel": 2, "tick": 14, "pow": 6, "hq": 14},
 }
+# bandwidth (Mbit) of the two server-side links: the database file is 38.15 Mbit, so 30 never carries it, 40 once per
+# tick, 80 twice per tick; None = wide links (saturation impossible)
+NARROW = [30, 40, 40, 80, 80, 100]
 
 
 def gen_setup(rng: Rng) -> dict:
     n = rng.choice([1, 2, 2, 3, 3, 4])
-    srv_pw = rng.choice([None, None, 1, 2])
+    srv_pw = rng.choice([None, None, None, 1, 2, 0])
     clients = []
     for _ in range(n):
         good = rng.chance(4, 5)
-        clients.append({"pw": srv_pw if good else rng.choice([None, 1, 2, 3]),
-                        "rs": rng.chance(1, 2), "rs_pw": srv_pw if rng.chance(4, 5) else rng.choice([None, 1, 3])})
+        clients.append({"pw": srv_pw if good else rng.choice([None, 0, 1, 2, 3]),
+                        "rs": rng.chance(1, 2), "rs_pw": srv_pw if rng.chance(4, 5) else rng.choice([None, 0, 1, 3]),
+                        "dm": rng.chance(1, 2), "dm_pw": srv_pw if rng.chance(4, 5) else rng.choice([None, 0, 1, 3]),
+                        "dm_repeat": rng.chance(2, 3)})
     return {"max": rng.choice([1, 2, 2, 3, 3, 4, 100]), "fix": rng.choice([0, 1, 2, 2, 3]), "restart": rng.choice([0, 1, 2, 5]),
-            "durs": {"sUp": rng.choice([0, 1, 2]), "sDown": rng.choice([1, 2]), "bUp": rng.choice([0, 1, 2]), "bDown": rng.choice([1, 2]),
-                     "cUp": rng.choice([0, 1, 2]), "cDown": rng.choice([1, 2])},
-            "srv_pw": srv_pw, "clients": clients, "ops": []}
+            "durs": {"sUp": rng.choice([0, 1, 2]), "sDown": rng.choice([0, 1, 1, 2]), "bUp": rng.choice([0, 1, 2]),
+                     "bDown": rng.choice([0, 1, 1, 2]), "cUp": rng.choice([0, 1, 2]), "cDown": rng.choice([0, 1, 1, 2])},
+            "srv_pw": srv_pw, "bkcfg": rng.chance(9, 10), "bw": None, "bw_bk": None, "clients": clients, "ops": []}
 
 
 def next_op(rng: Rng, w: "World", case: dict, W: dict, total: int) -> list:
@@ -389,7 +503,7 @@ def next_op(rng: Rng, w: "World", case: dict, W: dict, total: int) -> list:
     n = len(case["clients"])
     nh, nid = len(w.rec.handles), len(w.rec.ids)
     sqls = ["SELECT", "SELECT", "DELETE", "ENCRYPT", "INSERT", "PGSTAT", "OTHER"]
-    pws = [None, 1, 2, 3]
+    pws = [None, 0, 1, 2, 3]
     # repair bias: something is off / stopped / blocked -> often undo it
     if rng.chance(1, 4):
         fixes = []
@@ -406,6 +520,12 @@ def next_op(rng: Rng, w: "World", case: dict, W: dict, total: int) -> list:
                 fixes.append(["tick"])
             if w.db.health_state_actual.name in ("OVERWHELMED", "COMPROMISED"):
                 fixes += [["restore"], ["svc", "compromise"], ["svc", "fix"]]
+            fc = w.srv.software_manager.software.get("ftp-client")
+            if fc is not None:
+                fixes += {"STOPPED": [["adm", "ftpc", "start"]], "PAUSED": [["adm", "ftpc", "resume"]],
+                          "DISABLED": [["adm", "ftpc", "enable"]]}.get(fc.operating_state.name, [])
+            if w.db.backup_server_ip is None:
+                fixes.append(["adm", "bkcfg", True])
         for pos in range(2 + 2 * n):
             if w.router.acl.acl[pos] is not None:
                 fixes.append(["blk", pos, False])
@@ -460,9 +580,26 @@ def next_op(rng: Rng, w: "World", case: dict, W: dict, total: int) -> list:
         return ["nq", i, rng.choice(sqls)]
     if k == "cpw":
         return ["cpw", i, pw_int(w.db.password) if rng.chance(2, 3) else rng.choice(pws)]
-    if k == "rs":
+    if k in ("rs", "rsx"):
         with_rs = [j for j, c in enumerate(case["clients"]) if c["rs"]]
-        return ["rs", rng.choice(with_rs) if with_rs and not wild else i, rng.choice(["ENCRYPT", "ENCRYPT", "DELETE", "SELECT"])]
+        return [k, rng.choice(with_rs) if with_rs and not wild else i, rng.choice(["ENCRYPT", "ENCRYPT", "DELETE", "SELECT"])]
+    if k == "dm":
+        with_dm = [j for j, c in enumerate(case["clients"]) if c.get("dm")]
+        return ["dm", rng.choice(with_dm) if with_dm and not wild else i, rng.choice(["DELETE", "DELETE", "ENCRYPT", "SELECT", "OTHER"]),
+                rng.chance(3, 4), rng.chance(3, 4), rng.chance(1, 3)]
+    if k in ("fodel", "bkdel"):
+        return [k]
+    if k == "adm":
+        x = rng.below(20)
+        if x < 9:
+            return ["adm", "ftpc", rng.choice(["stop", "start", "stop", "start", "pause", "resume", "disable", "enable"])]
+        if x < 12:
+            return ["adm", "bkcfg", rng.chance(1, 2)]
+        if x < 15:
+            return ["adm", "coin"]
+        if x < 18:
+            return ["adm", "coun"]
+        return ["adm", rng.choice(["ftpcun", "svcun"])]
     if k == "svc":
         return ["svc", rng.choice(SVC_REQS + ["fix", "start", "stop", "compromise"])]
     if k == "spw":
@@ -479,7 +616,7 @@ def next_op(rng: Rng, w: "World", case: dict, W: dict, total: int) -> list:
 
 
 def pw_int(p: Optional[str]) -> Optional[int]:
-    return None if p is None else int(p[2:])
+    return None if p is None else (0 if p == "" else int(p[2:]))
 
 
 def gen_and_run(rng: Rng, max_ops: int = 40):
@@ -490,6 +627,11 @@ def gen_and_run(rng: Rng, max_ops: int = 40):
     W.update(PROFILE_W[profile])
     total = sum(W.values())
     case["profile"] = profile
+    if profile == "saturation" or (profile in ("damage", "admin") and rng.chance(1, 4)):
+        # either link may be the narrow one: a frame refused by the sender's own link is known to the sender, one refused
+        # further down is not
+        case["bw"], case["bw_bk"] = rng.choice([(rng.choice(NARROW), rng.choice(NARROW)), (rng.choice(NARROW), None),
+                                                (None, rng.choice(NARROW))])
     rec = Rec()
     out = ["ok", "ok"] + ["ok"] * len(case["clients"])
     with instrumented(rec):
@@ -509,4 +651,4 @@ def nontrivial(model: List[str]) -> bool:
     """A trace is non-trivial when it exercised something beyond plain successful connects/queries."""
     joined = "\n".join(model)
     return any(t in joined for t in ("st=[401", "st=[500", "st=[503", "st=[404", "COMPROMISED", "CORRUPT", "OVERWHELMED", "rej=1",
-                                     "OFF", "STOPPED", "absent"))
+                                     "OFF", "STOPPED", "absent", "port=0", "ftpc=-", "PAUSED", "DISABLED"))
